@@ -36,8 +36,11 @@ Record params := mkParams {
   p_kind : cid -> kind;
   p_pred : cid -> option cid;
   p_fixed : bool;
-  p_slow : cid -> bool     (* the capability a queued call is delivered to withholds its delivery
+  p_slow : cid -> bool;    (* the capability a queued call is delivered to withholds its delivery
                               acknowledgement (its Recv blocks) until the environment lets it *)
+  p_relfix : bool          (* [true]: the code as it is: start's "cancelled while waiting for a free slot" branch
+                              does r.Reject(ctx.Err()) (= r.ReleaseArgs(); r.Returner.Return(..)).  [false]: the
+                              variant that does r.Returner.Return(ctx.Err()) there (arguments never released) *)
 }.
 
 (* program counters *)
@@ -131,34 +134,36 @@ Record config := mkConfig {
   compl : cid -> list cls;
   trace : list event;
   panicked : bool;
-  shcount : nat
+  shcount : nat;
+  rel : cid -> nat          (* ghost: how many times r.ReleaseArgs() has run for each call *)
 }.
-Definition set_ongoing (v : list (option cid)) (c : config) : config := mkConfig v (starting c) (full c) (drain c) (spc c) (ipc c) (ppc c) (shpc c) (cancelled c) (icanc c) (acked c) (gate_rel c) (idone c) (slot c) (ierr c) (gotp c) (aq_q c) (aq_ph c) (penq c) (proot c) (pbasis c) (tret c) (compl c) (trace c) (panicked c) (shcount c).
-Definition set_starting (v : option cid) (c : config) : config := mkConfig (ongoing c) v (full c) (drain c) (spc c) (ipc c) (ppc c) (shpc c) (cancelled c) (icanc c) (acked c) (gate_rel c) (idone c) (slot c) (ierr c) (gotp c) (aq_q c) (aq_ph c) (penq c) (proot c) (pbasis c) (tret c) (compl c) (trace c) (panicked c) (shcount c).
-Definition set_full (v : option cid) (c : config) : config := mkConfig (ongoing c) (starting c) v (drain c) (spc c) (ipc c) (ppc c) (shpc c) (cancelled c) (icanc c) (acked c) (gate_rel c) (idone c) (slot c) (ierr c) (gotp c) (aq_q c) (aq_ph c) (penq c) (proot c) (pbasis c) (tret c) (compl c) (trace c) (panicked c) (shcount c).
-Definition set_drain (v : dstate) (c : config) : config := mkConfig (ongoing c) (starting c) (full c) v (spc c) (ipc c) (ppc c) (shpc c) (cancelled c) (icanc c) (acked c) (gate_rel c) (idone c) (slot c) (ierr c) (gotp c) (aq_q c) (aq_ph c) (penq c) (proot c) (pbasis c) (tret c) (compl c) (trace c) (panicked c) (shcount c).
-Definition set_spc (v : cid -> spc_t) (c : config) : config := mkConfig (ongoing c) (starting c) (full c) (drain c) v (ipc c) (ppc c) (shpc c) (cancelled c) (icanc c) (acked c) (gate_rel c) (idone c) (slot c) (ierr c) (gotp c) (aq_q c) (aq_ph c) (penq c) (proot c) (pbasis c) (tret c) (compl c) (trace c) (panicked c) (shcount c).
-Definition set_ipc (v : cid -> ipc_t) (c : config) : config := mkConfig (ongoing c) (starting c) (full c) (drain c) (spc c) v (ppc c) (shpc c) (cancelled c) (icanc c) (acked c) (gate_rel c) (idone c) (slot c) (ierr c) (gotp c) (aq_q c) (aq_ph c) (penq c) (proot c) (pbasis c) (tret c) (compl c) (trace c) (panicked c) (shcount c).
-Definition set_ppc (v : cid -> ppc_t) (c : config) : config := mkConfig (ongoing c) (starting c) (full c) (drain c) (spc c) (ipc c) v (shpc c) (cancelled c) (icanc c) (acked c) (gate_rel c) (idone c) (slot c) (ierr c) (gotp c) (aq_q c) (aq_ph c) (penq c) (proot c) (pbasis c) (tret c) (compl c) (trace c) (panicked c) (shcount c).
-Definition set_shpc (v : shpc_t) (c : config) : config := mkConfig (ongoing c) (starting c) (full c) (drain c) (spc c) (ipc c) (ppc c) v (cancelled c) (icanc c) (acked c) (gate_rel c) (idone c) (slot c) (ierr c) (gotp c) (aq_q c) (aq_ph c) (penq c) (proot c) (pbasis c) (tret c) (compl c) (trace c) (panicked c) (shcount c).
-Definition set_cancelled (v : cid -> bool) (c : config) : config := mkConfig (ongoing c) (starting c) (full c) (drain c) (spc c) (ipc c) (ppc c) (shpc c) v (icanc c) (acked c) (gate_rel c) (idone c) (slot c) (ierr c) (gotp c) (aq_q c) (aq_ph c) (penq c) (proot c) (pbasis c) (tret c) (compl c) (trace c) (panicked c) (shcount c).
-Definition set_icanc (v : cid -> bool) (c : config) : config := mkConfig (ongoing c) (starting c) (full c) (drain c) (spc c) (ipc c) (ppc c) (shpc c) (cancelled c) v (acked c) (gate_rel c) (idone c) (slot c) (ierr c) (gotp c) (aq_q c) (aq_ph c) (penq c) (proot c) (pbasis c) (tret c) (compl c) (trace c) (panicked c) (shcount c).
-Definition set_acked (v : cid -> bool) (c : config) : config := mkConfig (ongoing c) (starting c) (full c) (drain c) (spc c) (ipc c) (ppc c) (shpc c) (cancelled c) (icanc c) v (gate_rel c) (idone c) (slot c) (ierr c) (gotp c) (aq_q c) (aq_ph c) (penq c) (proot c) (pbasis c) (tret c) (compl c) (trace c) (panicked c) (shcount c).
-Definition set_gate_rel (v : cid -> bool) (c : config) : config := mkConfig (ongoing c) (starting c) (full c) (drain c) (spc c) (ipc c) (ppc c) (shpc c) (cancelled c) (icanc c) (acked c) v (idone c) (slot c) (ierr c) (gotp c) (aq_q c) (aq_ph c) (penq c) (proot c) (pbasis c) (tret c) (compl c) (trace c) (panicked c) (shcount c).
-Definition set_idone (v : cid -> bool) (c : config) : config := mkConfig (ongoing c) (starting c) (full c) (drain c) (spc c) (ipc c) (ppc c) (shpc c) (cancelled c) (icanc c) (acked c) (gate_rel c) v (slot c) (ierr c) (gotp c) (aq_q c) (aq_ph c) (penq c) (proot c) (pbasis c) (tret c) (compl c) (trace c) (panicked c) (shcount c).
-Definition set_slot (v : cid -> nat) (c : config) : config := mkConfig (ongoing c) (starting c) (full c) (drain c) (spc c) (ipc c) (ppc c) (shpc c) (cancelled c) (icanc c) (acked c) (gate_rel c) (idone c) v (ierr c) (gotp c) (aq_q c) (aq_ph c) (penq c) (proot c) (pbasis c) (tret c) (compl c) (trace c) (panicked c) (shcount c).
-Definition set_ierr (v : cid -> bool) (c : config) : config := mkConfig (ongoing c) (starting c) (full c) (drain c) (spc c) (ipc c) (ppc c) (shpc c) (cancelled c) (icanc c) (acked c) (gate_rel c) (idone c) (slot c) v (gotp c) (aq_q c) (aq_ph c) (penq c) (proot c) (pbasis c) (tret c) (compl c) (trace c) (panicked c) (shcount c).
-Definition set_gotp (v : cid -> bool) (c : config) : config := mkConfig (ongoing c) (starting c) (full c) (drain c) (spc c) (ipc c) (ppc c) (shpc c) (cancelled c) (icanc c) (acked c) (gate_rel c) (idone c) (slot c) (ierr c) v (aq_q c) (aq_ph c) (penq c) (proot c) (pbasis c) (tret c) (compl c) (trace c) (panicked c) (shcount c).
-Definition set_aq_q (v : cid -> list cid) (c : config) : config := mkConfig (ongoing c) (starting c) (full c) (drain c) (spc c) (ipc c) (ppc c) (shpc c) (cancelled c) (icanc c) (acked c) (gate_rel c) (idone c) (slot c) (ierr c) (gotp c) v (aq_ph c) (penq c) (proot c) (pbasis c) (tret c) (compl c) (trace c) (panicked c) (shcount c).
-Definition set_aq_ph (v : cid -> aqphase) (c : config) : config := mkConfig (ongoing c) (starting c) (full c) (drain c) (spc c) (ipc c) (ppc c) (shpc c) (cancelled c) (icanc c) (acked c) (gate_rel c) (idone c) (slot c) (ierr c) (gotp c) (aq_q c) v (penq c) (proot c) (pbasis c) (tret c) (compl c) (trace c) (panicked c) (shcount c).
-Definition set_penq (v : cid -> option nat) (c : config) : config := mkConfig (ongoing c) (starting c) (full c) (drain c) (spc c) (ipc c) (ppc c) (shpc c) (cancelled c) (icanc c) (acked c) (gate_rel c) (idone c) (slot c) (ierr c) (gotp c) (aq_q c) (aq_ph c) v (proot c) (pbasis c) (tret c) (compl c) (trace c) (panicked c) (shcount c).
-Definition set_proot (v : cid -> cid) (c : config) : config := mkConfig (ongoing c) (starting c) (full c) (drain c) (spc c) (ipc c) (ppc c) (shpc c) (cancelled c) (icanc c) (acked c) (gate_rel c) (idone c) (slot c) (ierr c) (gotp c) (aq_q c) (aq_ph c) (penq c) v (pbasis c) (tret c) (compl c) (trace c) (panicked c) (shcount c).
-Definition set_pbasis (v : cid -> nat) (c : config) : config := mkConfig (ongoing c) (starting c) (full c) (drain c) (spc c) (ipc c) (ppc c) (shpc c) (cancelled c) (icanc c) (acked c) (gate_rel c) (idone c) (slot c) (ierr c) (gotp c) (aq_q c) (aq_ph c) (penq c) (proot c) v (tret c) (compl c) (trace c) (panicked c) (shcount c).
-Definition set_tret (v : cid -> tres) (c : config) : config := mkConfig (ongoing c) (starting c) (full c) (drain c) (spc c) (ipc c) (ppc c) (shpc c) (cancelled c) (icanc c) (acked c) (gate_rel c) (idone c) (slot c) (ierr c) (gotp c) (aq_q c) (aq_ph c) (penq c) (proot c) (pbasis c) v (compl c) (trace c) (panicked c) (shcount c).
-Definition set_compl (v : cid -> list cls) (c : config) : config := mkConfig (ongoing c) (starting c) (full c) (drain c) (spc c) (ipc c) (ppc c) (shpc c) (cancelled c) (icanc c) (acked c) (gate_rel c) (idone c) (slot c) (ierr c) (gotp c) (aq_q c) (aq_ph c) (penq c) (proot c) (pbasis c) (tret c) v (trace c) (panicked c) (shcount c).
-Definition set_trace (v : list event) (c : config) : config := mkConfig (ongoing c) (starting c) (full c) (drain c) (spc c) (ipc c) (ppc c) (shpc c) (cancelled c) (icanc c) (acked c) (gate_rel c) (idone c) (slot c) (ierr c) (gotp c) (aq_q c) (aq_ph c) (penq c) (proot c) (pbasis c) (tret c) (compl c) v (panicked c) (shcount c).
-Definition set_panicked (v : bool) (c : config) : config := mkConfig (ongoing c) (starting c) (full c) (drain c) (spc c) (ipc c) (ppc c) (shpc c) (cancelled c) (icanc c) (acked c) (gate_rel c) (idone c) (slot c) (ierr c) (gotp c) (aq_q c) (aq_ph c) (penq c) (proot c) (pbasis c) (tret c) (compl c) (trace c) v (shcount c).
-Definition set_shcount (v : nat) (c : config) : config := mkConfig (ongoing c) (starting c) (full c) (drain c) (spc c) (ipc c) (ppc c) (shpc c) (cancelled c) (icanc c) (acked c) (gate_rel c) (idone c) (slot c) (ierr c) (gotp c) (aq_q c) (aq_ph c) (penq c) (proot c) (pbasis c) (tret c) (compl c) (trace c) (panicked c) v.
+Definition set_ongoing (v : list (option cid)) (c : config) : config := mkConfig v (starting c) (full c) (drain c) (spc c) (ipc c) (ppc c) (shpc c) (cancelled c) (icanc c) (acked c) (gate_rel c) (idone c) (slot c) (ierr c) (gotp c) (aq_q c) (aq_ph c) (penq c) (proot c) (pbasis c) (tret c) (compl c) (trace c) (panicked c) (shcount c) (rel c).
+Definition set_starting (v : option cid) (c : config) : config := mkConfig (ongoing c) v (full c) (drain c) (spc c) (ipc c) (ppc c) (shpc c) (cancelled c) (icanc c) (acked c) (gate_rel c) (idone c) (slot c) (ierr c) (gotp c) (aq_q c) (aq_ph c) (penq c) (proot c) (pbasis c) (tret c) (compl c) (trace c) (panicked c) (shcount c) (rel c).
+Definition set_full (v : option cid) (c : config) : config := mkConfig (ongoing c) (starting c) v (drain c) (spc c) (ipc c) (ppc c) (shpc c) (cancelled c) (icanc c) (acked c) (gate_rel c) (idone c) (slot c) (ierr c) (gotp c) (aq_q c) (aq_ph c) (penq c) (proot c) (pbasis c) (tret c) (compl c) (trace c) (panicked c) (shcount c) (rel c).
+Definition set_drain (v : dstate) (c : config) : config := mkConfig (ongoing c) (starting c) (full c) v (spc c) (ipc c) (ppc c) (shpc c) (cancelled c) (icanc c) (acked c) (gate_rel c) (idone c) (slot c) (ierr c) (gotp c) (aq_q c) (aq_ph c) (penq c) (proot c) (pbasis c) (tret c) (compl c) (trace c) (panicked c) (shcount c) (rel c).
+Definition set_spc (v : cid -> spc_t) (c : config) : config := mkConfig (ongoing c) (starting c) (full c) (drain c) v (ipc c) (ppc c) (shpc c) (cancelled c) (icanc c) (acked c) (gate_rel c) (idone c) (slot c) (ierr c) (gotp c) (aq_q c) (aq_ph c) (penq c) (proot c) (pbasis c) (tret c) (compl c) (trace c) (panicked c) (shcount c) (rel c).
+Definition set_ipc (v : cid -> ipc_t) (c : config) : config := mkConfig (ongoing c) (starting c) (full c) (drain c) (spc c) v (ppc c) (shpc c) (cancelled c) (icanc c) (acked c) (gate_rel c) (idone c) (slot c) (ierr c) (gotp c) (aq_q c) (aq_ph c) (penq c) (proot c) (pbasis c) (tret c) (compl c) (trace c) (panicked c) (shcount c) (rel c).
+Definition set_ppc (v : cid -> ppc_t) (c : config) : config := mkConfig (ongoing c) (starting c) (full c) (drain c) (spc c) (ipc c) v (shpc c) (cancelled c) (icanc c) (acked c) (gate_rel c) (idone c) (slot c) (ierr c) (gotp c) (aq_q c) (aq_ph c) (penq c) (proot c) (pbasis c) (tret c) (compl c) (trace c) (panicked c) (shcount c) (rel c).
+Definition set_shpc (v : shpc_t) (c : config) : config := mkConfig (ongoing c) (starting c) (full c) (drain c) (spc c) (ipc c) (ppc c) v (cancelled c) (icanc c) (acked c) (gate_rel c) (idone c) (slot c) (ierr c) (gotp c) (aq_q c) (aq_ph c) (penq c) (proot c) (pbasis c) (tret c) (compl c) (trace c) (panicked c) (shcount c) (rel c).
+Definition set_cancelled (v : cid -> bool) (c : config) : config := mkConfig (ongoing c) (starting c) (full c) (drain c) (spc c) (ipc c) (ppc c) (shpc c) v (icanc c) (acked c) (gate_rel c) (idone c) (slot c) (ierr c) (gotp c) (aq_q c) (aq_ph c) (penq c) (proot c) (pbasis c) (tret c) (compl c) (trace c) (panicked c) (shcount c) (rel c).
+Definition set_icanc (v : cid -> bool) (c : config) : config := mkConfig (ongoing c) (starting c) (full c) (drain c) (spc c) (ipc c) (ppc c) (shpc c) (cancelled c) v (acked c) (gate_rel c) (idone c) (slot c) (ierr c) (gotp c) (aq_q c) (aq_ph c) (penq c) (proot c) (pbasis c) (tret c) (compl c) (trace c) (panicked c) (shcount c) (rel c).
+Definition set_acked (v : cid -> bool) (c : config) : config := mkConfig (ongoing c) (starting c) (full c) (drain c) (spc c) (ipc c) (ppc c) (shpc c) (cancelled c) (icanc c) v (gate_rel c) (idone c) (slot c) (ierr c) (gotp c) (aq_q c) (aq_ph c) (penq c) (proot c) (pbasis c) (tret c) (compl c) (trace c) (panicked c) (shcount c) (rel c).
+Definition set_gate_rel (v : cid -> bool) (c : config) : config := mkConfig (ongoing c) (starting c) (full c) (drain c) (spc c) (ipc c) (ppc c) (shpc c) (cancelled c) (icanc c) (acked c) v (idone c) (slot c) (ierr c) (gotp c) (aq_q c) (aq_ph c) (penq c) (proot c) (pbasis c) (tret c) (compl c) (trace c) (panicked c) (shcount c) (rel c).
+Definition set_idone (v : cid -> bool) (c : config) : config := mkConfig (ongoing c) (starting c) (full c) (drain c) (spc c) (ipc c) (ppc c) (shpc c) (cancelled c) (icanc c) (acked c) (gate_rel c) v (slot c) (ierr c) (gotp c) (aq_q c) (aq_ph c) (penq c) (proot c) (pbasis c) (tret c) (compl c) (trace c) (panicked c) (shcount c) (rel c).
+Definition set_slot (v : cid -> nat) (c : config) : config := mkConfig (ongoing c) (starting c) (full c) (drain c) (spc c) (ipc c) (ppc c) (shpc c) (cancelled c) (icanc c) (acked c) (gate_rel c) (idone c) v (ierr c) (gotp c) (aq_q c) (aq_ph c) (penq c) (proot c) (pbasis c) (tret c) (compl c) (trace c) (panicked c) (shcount c) (rel c).
+Definition set_ierr (v : cid -> bool) (c : config) : config := mkConfig (ongoing c) (starting c) (full c) (drain c) (spc c) (ipc c) (ppc c) (shpc c) (cancelled c) (icanc c) (acked c) (gate_rel c) (idone c) (slot c) v (gotp c) (aq_q c) (aq_ph c) (penq c) (proot c) (pbasis c) (tret c) (compl c) (trace c) (panicked c) (shcount c) (rel c).
+Definition set_gotp (v : cid -> bool) (c : config) : config := mkConfig (ongoing c) (starting c) (full c) (drain c) (spc c) (ipc c) (ppc c) (shpc c) (cancelled c) (icanc c) (acked c) (gate_rel c) (idone c) (slot c) (ierr c) v (aq_q c) (aq_ph c) (penq c) (proot c) (pbasis c) (tret c) (compl c) (trace c) (panicked c) (shcount c) (rel c).
+Definition set_aq_q (v : cid -> list cid) (c : config) : config := mkConfig (ongoing c) (starting c) (full c) (drain c) (spc c) (ipc c) (ppc c) (shpc c) (cancelled c) (icanc c) (acked c) (gate_rel c) (idone c) (slot c) (ierr c) (gotp c) v (aq_ph c) (penq c) (proot c) (pbasis c) (tret c) (compl c) (trace c) (panicked c) (shcount c) (rel c).
+Definition set_aq_ph (v : cid -> aqphase) (c : config) : config := mkConfig (ongoing c) (starting c) (full c) (drain c) (spc c) (ipc c) (ppc c) (shpc c) (cancelled c) (icanc c) (acked c) (gate_rel c) (idone c) (slot c) (ierr c) (gotp c) (aq_q c) v (penq c) (proot c) (pbasis c) (tret c) (compl c) (trace c) (panicked c) (shcount c) (rel c).
+Definition set_penq (v : cid -> option nat) (c : config) : config := mkConfig (ongoing c) (starting c) (full c) (drain c) (spc c) (ipc c) (ppc c) (shpc c) (cancelled c) (icanc c) (acked c) (gate_rel c) (idone c) (slot c) (ierr c) (gotp c) (aq_q c) (aq_ph c) v (proot c) (pbasis c) (tret c) (compl c) (trace c) (panicked c) (shcount c) (rel c).
+Definition set_proot (v : cid -> cid) (c : config) : config := mkConfig (ongoing c) (starting c) (full c) (drain c) (spc c) (ipc c) (ppc c) (shpc c) (cancelled c) (icanc c) (acked c) (gate_rel c) (idone c) (slot c) (ierr c) (gotp c) (aq_q c) (aq_ph c) (penq c) v (pbasis c) (tret c) (compl c) (trace c) (panicked c) (shcount c) (rel c).
+Definition set_pbasis (v : cid -> nat) (c : config) : config := mkConfig (ongoing c) (starting c) (full c) (drain c) (spc c) (ipc c) (ppc c) (shpc c) (cancelled c) (icanc c) (acked c) (gate_rel c) (idone c) (slot c) (ierr c) (gotp c) (aq_q c) (aq_ph c) (penq c) (proot c) v (tret c) (compl c) (trace c) (panicked c) (shcount c) (rel c).
+Definition set_tret (v : cid -> tres) (c : config) : config := mkConfig (ongoing c) (starting c) (full c) (drain c) (spc c) (ipc c) (ppc c) (shpc c) (cancelled c) (icanc c) (acked c) (gate_rel c) (idone c) (slot c) (ierr c) (gotp c) (aq_q c) (aq_ph c) (penq c) (proot c) (pbasis c) v (compl c) (trace c) (panicked c) (shcount c) (rel c).
+Definition set_compl (v : cid -> list cls) (c : config) : config := mkConfig (ongoing c) (starting c) (full c) (drain c) (spc c) (ipc c) (ppc c) (shpc c) (cancelled c) (icanc c) (acked c) (gate_rel c) (idone c) (slot c) (ierr c) (gotp c) (aq_q c) (aq_ph c) (penq c) (proot c) (pbasis c) (tret c) v (trace c) (panicked c) (shcount c) (rel c).
+Definition set_trace (v : list event) (c : config) : config := mkConfig (ongoing c) (starting c) (full c) (drain c) (spc c) (ipc c) (ppc c) (shpc c) (cancelled c) (icanc c) (acked c) (gate_rel c) (idone c) (slot c) (ierr c) (gotp c) (aq_q c) (aq_ph c) (penq c) (proot c) (pbasis c) (tret c) (compl c) v (panicked c) (shcount c) (rel c).
+Definition set_panicked (v : bool) (c : config) : config := mkConfig (ongoing c) (starting c) (full c) (drain c) (spc c) (ipc c) (ppc c) (shpc c) (cancelled c) (icanc c) (acked c) (gate_rel c) (idone c) (slot c) (ierr c) (gotp c) (aq_q c) (aq_ph c) (penq c) (proot c) (pbasis c) (tret c) (compl c) (trace c) v (shcount c) (rel c).
+Definition set_shcount (v : nat) (c : config) : config := mkConfig (ongoing c) (starting c) (full c) (drain c) (spc c) (ipc c) (ppc c) (shpc c) (cancelled c) (icanc c) (acked c) (gate_rel c) (idone c) (slot c) (ierr c) (gotp c) (aq_q c) (aq_ph c) (penq c) (proot c) (pbasis c) (tret c) (compl c) (trace c) (panicked c) v (rel c).
+Definition set_rel (v : cid -> nat) (c : config) : config := mkConfig (ongoing c) (starting c) (full c) (drain c) (spc c) (ipc c) (ppc c) (shpc c) (cancelled c) (icanc c) (acked c) (gate_rel c) (idone c) (slot c) (ierr c) (gotp c) (aq_q c) (aq_ph c) (penq c) (proot c) (pbasis c) (tret c) (compl c) (trace c) (panicked c) (shcount c) v.
 
 Definition upd {A} (f : cid -> A) (c : cid) (v : A) : cid -> A :=
   fun x => if Nat.eqb x c then v else f x.
@@ -170,6 +175,13 @@ Definition panic (c : config) : config := set_panicked true c.
 Definition complete (x : cid) (k : cls) (c : config) : config :=
   ev (EvComplete x k) (set_compl (upd (compl c) x (k :: compl c x)) c).
 
+(* r.ReleaseArgs() of call x *)
+Definition release (x : cid) (c : config) : config :=
+  set_rel (upd (rel c) x (S (rel c x))) c.
+
+(* r.Reject(e) = r.ReleaseArgs(); r.Returner.Return(e)   (capability.go, Recv.Reject) *)
+Definition reject_call (x : cid) (k : cls) (c : config) : config := complete x k (release x c).
+
 Definition init (P : params) : config :=
   mkConfig (repeat None (p_max P)) None None DNil
            (fun _ => S0) (fun _ => INone) (fun _ => PInit) ShInit
@@ -177,7 +189,7 @@ Definition init (P : params) : config :=
            (fun _ => false) (fun _ => 0) (fun _ => false) (fun _ => false)
            (fun _ => []) (fun _ => AQueueing) (fun _ => None) (fun _ => 0)
            (fun _ => 0) (fun _ => TNone)
-           (fun _ => []) [] false 0.
+           (fun _ => []) [] false 0 (fun _ => 0).
 
 (* ---- srv.nextID / srv.hasOngoing / slot update *)
 Fixpoint next_id (l : list (option cid)) : option nat :=
@@ -215,7 +227,14 @@ Definition release_gate (x : cid) (c : config) : config :=
 
 (* r.Reject(e); return nil *)
 Definition start_reject (x : cid) (k : cls) (c : config) : config :=
-  ev (EvStartRet x false) (set_spc (upd (spc c) x SDone) (complete x k c)).
+  ev (EvStartRet x false) (set_spc (upd (spc c) x SDone) (reject_call x k c)).
+
+(* the same with the ReleaseArgs made conditional: [b = false] is the variant of the branch that only
+   does r.Returner.Return(e); return nil *)
+Definition release_if (b : bool) (x : cid) (c : config) : config :=
+  set_rel (upd (rel c) x (if b then S (rel c x) else rel c x)) c.
+Definition start_reject_if (b : bool) (x : cid) (k : cls) (c : config) : config :=
+  ev (EvStartRet x false) (set_spc (upd (spc c) x SDone) (complete x k (release_if b x c))).
 
 (* srv.ongoing[id] = cstate{cancel}; unlock; go func(){...}() *)
 Definition take_slot (x : cid) (id : nat) (c : config) : config :=
@@ -279,7 +298,7 @@ Definition step_start_ctx (P : params) (c : config) (x : cid) : option config :=
       match spc c x with
       | SWaitGate _ => Some (start_reject x CCtx c)
       | SWaitFull | SFullWoken =>
-        Some (start_reject x CCtx (set_full None (release_gate x c)))
+        Some (start_reject_if (p_relfix P) x CCtx (set_full None (release_gate x c)))
       | _ => None
       end
     else None
@@ -313,8 +332,9 @@ Definition entry_status (c : config) (a : cid) (j : nat) : option tres :=
 Definition deliver (a p b k : nat) (emb : bool) (c : config) : config :=
   let delivered d := ev (EvDeliver p d) (set_ppc (upd (ppc c) p (if emb then PDelivered else PDirect)) c) in
   let rejected o :=
-    if emb then set_ppc (upd (ppc c) p PEmbRet) (set_tret (upd (tret c) p (TErr o)) c)
-    else set_ppc (upd (ppc c) p PDone) (complete p (CErr o) c) in
+    (* r.Reject(re.err): ReleaseArgs, then the Returner (the returnEmbargoer / p's own) *)
+    if emb then set_ppc (upd (ppc c) p PEmbRet) (set_tret (upd (tret c) p (TErr o)) (release p c))
+    else set_ppc (upd (ppc c) p PDone) (reject_call p (CErr o) c) in
   match b with
   | 0 => delivered (DRes a)
   | S j =>
@@ -336,8 +356,8 @@ Definition all_free (l : list (option cid)) : bool := negb (has_ongoing l).
 Definition step_impl (P : params) (c : config) (x : cid) : option config :=
   match ipc c x with
   | IRet =>
-    (* aq.mu section of fulfill / reject: q := aq.q; aq.q = nil; bases...; close(aq.draining) *)
-    Some (set_ipc (upd (ipc c) x IDrain) (set_aq_ph (upd (aq_ph c) x (ADraining 0)) c))
+    (* r.ReleaseArgs(); then the aq.mu section of fulfill / reject: q := aq.q; aq.q = nil; bases...; close(aq.draining) *)
+    Some (set_ipc (upd (ipc c) x IDrain) (set_aq_ph (upd (aq_ph c) x (ADraining 0)) (release x c)))
   | IDrain =>
     match aq_ph c x with
     | ADraining k =>
@@ -346,7 +366,7 @@ Definition step_impl (P : params) (c : config) (x : cid) : option config :=
         let c1 := ev (EvProc x p) (set_aq_ph (upd (aq_ph c) x (ADraining (S k))) c) in
         if ierr c x then
           (* reject: q[i].Reject(e) *)
-          Some (set_ppc (upd (ppc c1) p PDone) (set_tret (upd (tret c1) p (TErr x)) (complete p (CErr x) c1)))
+          Some (set_ppc (upd (ppc c1) p PDone) (set_tret (upd (tret c1) p (TErr x)) (reject_call p (CErr x) c1)))
         else
           let c2 := deliver x p (pbasis c p) k true c1 in
           (* recv(...) returns only when the target has acknowledged delivery *)
@@ -403,7 +423,7 @@ Definition pipe_target (P : params) (c : config) (on : cid) : option (cid * nat)
   end.
 
 Definition passthrough (a p : cid) (c : config) : config :=
-  if ierr c a then set_ppc (upd (ppc c) p PDone) (complete p (CErr a) c)
+  if ierr c a then set_ppc (upd (ppc c) p PDone) (reject_call p (CErr a) c)
   else deliver a p (pbasis c p) (length (aq_q c a)) false c.
 
 Definition step_pipe (P : params) (c : config) (p : cid) : option config :=
@@ -447,18 +467,19 @@ Definition step_pipe_ctx (P : params) (c : config) (p : cid) : option config :=
   | Pipe _ =>
     if cancelled c p then
       match ppc c p with
-      | PWaitDrain | PWaitReady => Some (set_ppc (upd (ppc c) p PDone) (complete p CCtx c))
+      | PWaitDrain | PWaitReady => Some (set_ppc (upd (ppc c) p PDone) (reject_call p CCtx c))
       | _ => None
       end
     else None
   end.
 
-(* the capability a pipelined call was delivered to returns *)
+(* the capability a pipelined call was delivered to returns: r.Return() / r.Reject(e), i.e. it releases the
+   arguments it was handed (ReleaseArgs travels with the Recv) and then calls the Returner *)
 Definition step_target_ret (c : config) (p : cid) (e : bool) : option config :=
   let r := if e then TErr p else TOk in
   match ppc c p with
-  | PDelivered => Some (set_ppc (upd (ppc c) p PEmbRet) (set_tret (upd (tret c) p r) c))
-  | PDirect => Some (set_ppc (upd (ppc c) p PDone) (set_tret (upd (tret c) p r) (complete p (if e then CErr p else COk) c)))
+  | PDelivered => Some (set_ppc (upd (ppc c) p PEmbRet) (set_tret (upd (tret c) p r) (release p c)))
+  | PDirect => Some (set_ppc (upd (ppc c) p PDone) (set_tret (upd (tret c) p r) (reject_call p (if e then CErr p else COk) c)))
   | _ => None
   end.
 
